@@ -184,7 +184,7 @@ def check_primary_loop(repo: Repo, ob) -> None:
 def check(ctx: Ctx) -> None:
     repo = ctx.repo
     ctx.decides = ("lock discipline of the pool state, no blocking under the pool lock, guarded one-slot mailbox, "
-                   "guarded primary-loop exits, Reply completion in finally, spawn refusal, no lost wake-up shape, "
+                   "guarded primary-loop exits (the shutdown flag that steers them sampled under the pool lock), Reply completion in finally, spawn refusal, no lost wake-up shape, "
                    "each accepted reply started exactly once, pure timeout paths, lock-order acyclicity.")
     ctx.not_decided = "the thread interleavings themselves."
     ctx.trust("RLock / Event semantics")
